@@ -135,7 +135,7 @@ def strategy(draw):
     r = draw(run_spec(families=ALL_FAMILIES, n_max=8, jac_modes=("callable", "callable", "callable", None, "2-point", "3-point"),
                       maxiter=(0, 40), maxfun=(1, 200), ftols=(0.0, 1e-12, 1e-5, 1e-2, 0.3), gtols=(1e-8, 1e-5, 1e-3, 1e-2, 1e-1),
                       with_scaler=True, with_ftarget=True, with_callback_stop=True, gtol_callable=True))
-    nr = draw(st.sampled_from([0, 0, 1, 2, 3]))
+    nr = draw(st.sampled_from([0, 1, 2, 3]))
     restarts = []
     for _ in range(nr):
         restarts.append({
@@ -148,9 +148,45 @@ def strategy(draw):
     return {"run": r, "restarts": restarts}
 
 
+# ---- dedicated generator: evaluation budget that binds inside the first line search of a restart
+def check_restart_budget(spec, stats=None):
+    rspec = spec["run"]
+    prob = build(rspec["problem"])
+    cfg = dict(rspec["cfg"])
+    first = execute(rspec, prob=prob)
+    if first.exc is not None:
+        raise first.exc
+    judge(first, prob, cfg, n0=1, nit0=0, gtol=cfg["gtol"], ftarget_val=None, scale=1.0, cb_schedule_hit=None, mode="callable", tag="fresh")
+    n0, nit0 = first.res["nfev"], first.res["nit"]
+    c2 = dict(cfg)
+    c2["maxfun"] = n0 + spec["delta"]
+    c2["maxiter"] = nit0 + spec["more_iter"]
+    c2["maxls"] = spec["maxls2"]
+    nxt = run_min(prob, c2, checkpoint=first.result, x0=np.array(first.result.x, copy=True), callback="passive")
+    if nxt.exc is not None:
+        raise Violation("restart-accepted", f"restart raised {type(nxt.exc).__name__}: {nxt.exc}")
+    judge(nxt, prob, c2, n0=n0, nit0=nit0, gtol=c2["gtol"], ftarget_val=None, scale=1.0, cb_schedule_hit=None, mode="callable", tag="restart")
+    if stats is not None:
+        binding = nxt.nf >= spec["delta"]
+        stats.case(spec, binding and nit0 >= 1, ["kind=restart-budget", f"budget-binding={binding}", f"restart-msg={nxt.res['message'][:30]}", f"calls-in-restart={min(nxt.nf, 5)}"],
+                   sample={"family": rspec["problem"]["obj"].get("bench", rspec["problem"]["obj"]["family"]), "checkpoint_nfev": n0, "maxfun_at_restart": c2["maxfun"],
+                           "objective_calls_in_restart": nxt.nf, "nfev": nxt.res["nfev"], "message": nxt.res["message"]})
+
+
+@st.composite
+def restart_budget_strategy(draw):
+    r = draw(run_spec(families=("rosenbrock", "rosenbrock", "badscale", "sines", "bench", "qp_quartic"), n_max=6, jac_modes=("callable",), maxiter=(1, 10), maxfun=(400, 400),
+                      ftols=(0.0,), gtols=(1e-10,), narrow=draw(st.booleans())))
+    return {"run": r, "delta": draw(st.sampled_from([1, 1, 2, 2, 3, 4])), "more_iter": draw(st.sampled_from([1, 2, 5, 30])), "maxls2": draw(st.sampled_from([20, 20, 10, 5]))}
+
+
 def shard(ctx):
     ctx.hyp("histories", strategy(), check, ctx.pick(6000, 150000))
+    ctx.hyp("restart-budget", restart_budget_strategy(), check_restart_budget, ctx.pick(4000, 60000))
 
 
 def replay(spec):
-    check(spec, None)
+    if "delta" in spec:
+        check_restart_budget(spec, None)
+    else:
+        check(spec, None)
